@@ -115,6 +115,8 @@ func (ex *Exec) callValue(st *State, fc *FnCtx, c *ssa.CallCommon, fnv Val, args
 			return
 		}
 		if pct := ex.paramContractFor(fc, c.Value); pct != nil {
+			// a parameter contract may mention the locals of the function that makes the call
+			ex.pendingLocals = ex.specEnvAt(st, fc).locals
 			ex.applyContract(st, fc, pct, nil, c.Signature(), nil, args, in, k)
 			return
 		}
@@ -449,6 +451,9 @@ func (ex *Exec) applyContract(st *State, fc *FnCtx, ct *Contract, fn *ssa.Functi
 		pkg = ex.prog.pkgByPath(ct.Pkg)
 	}
 	env := &SpecEnv{ex: ex, st: st, heap: st.heap, names: names, pkg: pkg, alloc: st.alloc}
+	callerLocals := ex.pendingLocals
+	ex.pendingLocals = nil
+	env.locals = callerLocals
 	callProps := []string(nil)
 	if ex.ct != nil {
 		callProps = ex.ct.Props
@@ -555,6 +560,8 @@ func (ex *Exec) applyContract(st *State, fc *FnCtx, ct *Contract, fn *ssa.Functi
 		}
 	}
 	post := &SpecEnv{ex: ex, st: st, heap: st.heap, old: pre, names: map[string]tv{}, oldNames: names, pkg: pkg, alloc: st.alloc, oldAlloc: preAlloc}
+	post.locals = callerLocals
+	post.oldLocals = callerLocals
 	for n, v := range names {
 		post.names[n] = v
 	}
